@@ -1290,7 +1290,7 @@ namespace Inst {
     kIdVmovupd,                          //!< Instruction 'vmovupd' {AVX|AVX512_F+VL}.
     kIdVmovups,                          //!< Instruction 'vmovups' {AVX|AVX512_F+VL}.
     kIdVmovw,                            //!< Instruction 'vmovw' {AVX512_FP16+VL}.
-    kIdVmpsadbw,                         //!< Instruction 'vmpsadbw' {AVX|AVX2}.
+    kIdVmpsadbw,                         //!< Instruction 'vmpsadbw' {AVX|AVX10_2|AVX2}.
     kIdVmptrld,                          //!< Instruction 'vmptrld' {VMX}.
     kIdVmptrst,                          //!< Instruction 'vmptrst' {VMX}.
     kIdVmread,                           //!< Instruction 'vmread' {VMX}.
@@ -1384,22 +1384,22 @@ namespace Inst {
     kIdVpcomw,                           //!< Instruction 'vpcomw' {XOP}.
     kIdVpconflictd,                      //!< Instruction 'vpconflictd' {AVX512_CD+VL}.
     kIdVpconflictq,                      //!< Instruction 'vpconflictq' {AVX512_CD+VL}.
-    kIdVpdpbssd,                         //!< Instruction 'vpdpbssd' {AVX_VNNI_INT8}.
-    kIdVpdpbssds,                        //!< Instruction 'vpdpbssds' {AVX_VNNI_INT8}.
-    kIdVpdpbsud,                         //!< Instruction 'vpdpbsud' {AVX_VNNI_INT8}.
-    kIdVpdpbsuds,                        //!< Instruction 'vpdpbsuds' {AVX_VNNI_INT8}.
+    kIdVpdpbssd,                         //!< Instruction 'vpdpbssd' {AVX_VNNI_INT8|AVX10_2}.
+    kIdVpdpbssds,                        //!< Instruction 'vpdpbssds' {AVX_VNNI_INT8|AVX10_2}.
+    kIdVpdpbsud,                         //!< Instruction 'vpdpbsud' {AVX_VNNI_INT8|AVX10_2}.
+    kIdVpdpbsuds,                        //!< Instruction 'vpdpbsuds' {AVX_VNNI_INT8|AVX10_2}.
     kIdVpdpbusd,                         //!< Instruction 'vpdpbusd' {AVX_VNNI|AVX512_VNNI+VL}.
     kIdVpdpbusds,                        //!< Instruction 'vpdpbusds' {AVX_VNNI|AVX512_VNNI+VL}.
-    kIdVpdpbuud,                         //!< Instruction 'vpdpbuud' {AVX_VNNI_INT8}.
-    kIdVpdpbuuds,                        //!< Instruction 'vpdpbuuds' {AVX_VNNI_INT8}.
+    kIdVpdpbuud,                         //!< Instruction 'vpdpbuud' {AVX_VNNI_INT8|AVX10_2}.
+    kIdVpdpbuuds,                        //!< Instruction 'vpdpbuuds' {AVX_VNNI_INT8|AVX10_2}.
     kIdVpdpwssd,                         //!< Instruction 'vpdpwssd' {AVX_VNNI|AVX512_VNNI+VL}.
     kIdVpdpwssds,                        //!< Instruction 'vpdpwssds' {AVX_VNNI|AVX512_VNNI+VL}.
-    kIdVpdpwsud,                         //!< Instruction 'vpdpwsud' {AVX_VNNI_INT16}.
-    kIdVpdpwsuds,                        //!< Instruction 'vpdpwsuds' {AVX_VNNI_INT16}.
-    kIdVpdpwusd,                         //!< Instruction 'vpdpwusd' {AVX_VNNI_INT16}.
-    kIdVpdpwusds,                        //!< Instruction 'vpdpwusds' {AVX_VNNI_INT16}.
-    kIdVpdpwuud,                         //!< Instruction 'vpdpwuud' {AVX_VNNI_INT16}.
-    kIdVpdpwuuds,                        //!< Instruction 'vpdpwuuds' {AVX_VNNI_INT16}.
+    kIdVpdpwsud,                         //!< Instruction 'vpdpwsud' {AVX10_2|AVX_VNNI_INT16}.
+    kIdVpdpwsuds,                        //!< Instruction 'vpdpwsuds' {AVX10_2|AVX_VNNI_INT16}.
+    kIdVpdpwusd,                         //!< Instruction 'vpdpwusd' {AVX10_2|AVX_VNNI_INT16}.
+    kIdVpdpwusds,                        //!< Instruction 'vpdpwusds' {AVX10_2|AVX_VNNI_INT16}.
+    kIdVpdpwuud,                         //!< Instruction 'vpdpwuud' {AVX10_2|AVX_VNNI_INT16}.
+    kIdVpdpwuuds,                        //!< Instruction 'vpdpwuuds' {AVX10_2|AVX_VNNI_INT16}.
     kIdVperm2f128,                       //!< Instruction 'vperm2f128' {AVX}.
     kIdVperm2i128,                       //!< Instruction 'vperm2i128' {AVX2}.
     kIdVpermb,                           //!< Instruction 'vpermb' {AVX512_VBMI+VL}.
@@ -1707,8 +1707,8 @@ namespace Inst {
     kIdVsm3msg1,                         //!< Instruction 'vsm3msg1' {AVX & SM3}.
     kIdVsm3msg2,                         //!< Instruction 'vsm3msg2' {AVX & SM3}.
     kIdVsm3rnds2,                        //!< Instruction 'vsm3rnds2' {AVX & SM3}.
-    kIdVsm4key4,                         //!< Instruction 'vsm4key4' {AVX & SM4}.
-    kIdVsm4rnds4,                        //!< Instruction 'vsm4rnds4' {AVX & SM4}.
+    kIdVsm4key4,                         //!< Instruction 'vsm4key4' {AVX|AVX10_2 & SM4}.
+    kIdVsm4rnds4,                        //!< Instruction 'vsm4rnds4' {AVX|AVX10_2 & SM4}.
     kIdVsqrtpd,                          //!< Instruction 'vsqrtpd' {AVX|AVX512_F+VL}.
     kIdVsqrtph,                          //!< Instruction 'vsqrtph' {AVX512_FP16+VL}.
     kIdVsqrtps,                          //!< Instruction 'vsqrtps' {AVX|AVX512_F+VL}.
